@@ -238,10 +238,10 @@ theorem DE.select_slot [LT E] [DecidableLT E] (s : DE X E) (i : Nat) (y : X) (e 
     split_ifs with h1 h2
     · by_cases hj : j = i
       · exact Or.inr ⟨hj, ei, hei, h1, rfl, rfl⟩
-      · refine Or.inl ⟨?_, ?_⟩ <;> simp [List.getElem?_set, Ne.symm hj]
+      · refine Or.inl ⟨?_, ?_⟩ <;> simp [Ne.symm hj]
     · by_cases hj : j = i
       · exact Or.inr ⟨hj, ei, hei, h1, rfl, rfl⟩
-      · refine Or.inl ⟨?_, ?_⟩ <;> simp [List.getElem?_set, Ne.symm hj]
+      · refine Or.inl ⟨?_, ?_⟩ <;> simp [Ne.symm hj]
     · exact Or.inl ⟨rfl, rfl⟩
 
 theorem DE.select_lengths [LT E] [DecidableLT E] (s : DE X E) (i : Nat) (y : X) (e : E) :
